@@ -54,7 +54,7 @@ def commute(ck, seg, new, f, what, case, tol, key):
             got = new.point(t)
         except Exception as e:      # noqa
             got = e
-        if isinstance(got, Exception) or abs(got - exp) > tol * size:
+        if isinstance(got, Exception) or not (abs(got - exp) <= tol * size):
             ck.disagree(key=key, site='svgpathtools/path.py:' + key.split('/')[0],
                         what='%s: image.point(%r) = %r, mapped point = %r (segment %r)' % (what, t, got, exp, seg),
                         case=case, expected=repr(exp), observed=repr(got), driver='commute')
